@@ -33,6 +33,33 @@ def check_case(case):
                 c["a"]["vo"] = 0.0
     else:  # mux without a live input, next to a live shared source
         spec = mux_spec([tuple(x) for x in case["inputs"]], case["pal"], case["rs_list"], below="deep", mux_pc=case.get("mux_pc"))
+    if case.get("move"):
+        # analysis first, then a leaf load is moved (delete + add, same counts, index re-used) under the element that sleeps in one phase
+        from ..sysmodel import build, observe, move_leaf, LOADS
+        from ..common import quiet_call
+        d0 = resolve(spec)
+        leaves = [n for n in d0 if d0[n]["k"] in LOADS and d0[n]["parents"][0] != case["who"]]
+        if not leaves or d0[case["who"]]["k"] in LOADS:
+            return res
+        s = build(spec)
+        try:
+            quiet_call(s.solve)
+        except (RuntimeError, ValueError):
+            return res
+        spec = move_leaf(s, spec, leaves[0], case["who"])
+        try:
+            df, _ = quiet_call(s.solve)
+        except (RuntimeError, ValueError):
+            res.classes.add("moved-unsolvable")
+            return res
+        obs = observe(df)
+        dd = resolve(spec)
+        for ph in spec["phases"]:
+            phys.check_phase(res, spec, obs, ph, 25.0, WANT, dd)
+        res.viol = [(("C04.after-move",) + sig, det) for sig, det in res.viol]
+        res.nontrivial = 1
+        res.classes.add("moved")
+        return res
     s, obs = phys.solve_and_check(res, spec, WANT)
     if obs is not None and fam == "phase" and spec.get("phases") and case.get("chain"):
         # tight iteration budgets: for EVERY budget either RuntimeError or a table in which every phase is converged and the dead rail dead
@@ -86,6 +113,8 @@ def gen_cases(tier):
                         yield dict(fam="phase", f=f, pal=pal, pol=1, srs=0.37, who=c["n"], pc=["zz"], pc_first=(n % 2 == 0))
                         if n <= 2:
                             yield dict(fam="phase", f=f, pal=pal, pol=1, srs=0.37, who=c["n"], pc=["a"], nophase=True)
+                        if n == 3 and c["k"] != "Source":
+                            yield dict(fam="phase", f=f, pal=pal, pol=1, srs=0.37, who=c["n"], pc=["a"], move=True)
                         if tier != "quick":
                             yield dict(fam="phase", f=f, pal=pal, pol=-1, srs=0.0, who=c["n"], pc=["a", "c"], ph3=True)
         for n in ((4, 5) if tier == "quick" else (4, 5, 6)):
